@@ -31,7 +31,7 @@ PATTERN = np.array([[1.0, -2.0, 0.5], [3.0, 0.25, -1.5]])  # trailing (m, l)-lik
 def bounds(tier):
   return dict(level_sets='tenths lattice, K<=%d, + 2 irregular' % (4 if tier == 'quick' else 10),
               axes=[0, -3, -1], directions=['down', 'up'], cumsum_methods=['dot', 'jax'],
-              boundary_sequences='all sequences of length 0..5 over {0,.25,.5,.75,1}',
+              long_columns='K in %s geometric layers (cumulative integrals, log integrals, identities, sparse == dense geopotential) on every 31st unit column + ones' % str((65, 257, 513, 640) if tier == 'quick' else (65, 129, 257, 511, 512, 513, 640, 1025)), boundary_sequences='all sequences of length 0..5 over {0,.25,.5,.75,1}',
               reference_profiles=3)
 
 
@@ -43,6 +43,9 @@ def units(tier, seed):
   vals = [0.0, 0.25, 0.5, 0.75, 1.0]
   for n in range(0, 6):
     us.append(dict(kind='ctor', n=n, vals=vals))
+  # long columns: the cumulative-sum strategies may switch algorithm with the length of the axis
+  for K in ((65, 257, 513, 640) if tier == 'quick' else (65, 129, 257, 511, 512, 513, 640, 1025)):
+    us.append(dict(kind='long', K=K))
   return us
 
 
@@ -85,6 +88,39 @@ def work(unit, rec):
         rec.close(c.layer_thickness, r.ds, scale=1, site='ctor_thickness', key=key)
         rec.close(c.center_to_center, r.dc, scale=1, site='ctor_center_to_center', key=key)
         rec.check(c.layers == r.K, 'ctor_layers', key, {'layers': c.layers})
+    return
+
+  if unit['kind'] == 'long':
+    # a long column (geometric layer thicknesses): every 31st unit column + the all-ones column instead of the full basis
+    K = unit['K']
+    w = 1.01 ** np.arange(K); b = np.concatenate([[0.0], np.cumsum(w)]) / w.sum(); b[-1] = 1.0
+    r = rs.Sigma(list(b)); c = sc.SigmaCoordinates(b)
+    cols = list(range(0, K, 31)) + [K - 1]
+    x = np.zeros((K, len(cols) + 1)); x[:, -1] = 1.0
+    for j, k in enumerate(cols):
+      x[k, j] = 1.0 + 0.5 * j
+    tot = np.asarray(sc.sigma_integral(jnp.asarray(x), c, axis=0, keepdims=True))
+    res = {}
+    for down in (True, False):
+      for method in ('dot', 'jax'):
+        key = ('long_cumint', K, down, method)
+        got = np.asarray(sc.cumulative_sigma_integral(jnp.asarray(x), c, axis=0, downward=down, cumsum_method=method))
+        res[(down, method)] = got
+        rec.case(key, transitions=x.shape[1], outcome=got.tobytes(), sample={'op': 'cumulative_sigma_integral', 'layers': K, 'downward': down, 'method': method, 'columns': x.shape[1]})
+        rec.close(got, r.cumulative_integral(x, 0, down), scale=3.0, C=1e4 * np.sqrt(K), site='cumint_vs_ref', key=key)
+        rec.close(np.take(got, [K - 1] if down else [0], axis=0), tot, scale=3.0, C=1e4 * np.sqrt(K), site='cumint_ends_at_total', key=key)
+        lg = np.asarray(sc.cumulative_log_sigma_integral(jnp.asarray(x), c, axis=0, downward=down, cumsum_method=method))
+        rec.close(lg, r.cumulative_log_integral(x, 0, down), scale=3 * (1 + abs(np.log(r.c)).max()), C=1e4 * np.sqrt(K), site='logint_vs_ref', key=key)
+    key = ('long_identities', K)
+    rec.case(key, transitions=4, outcome=None)
+    for method in ('dot', 'jax'):
+      rec.close(res[(True, method)] + res[(False, method)] - tot, x * r.ds[:, None], scale=3.0, C=1e4 * np.sqrt(K), site='down_plus_up_minus_total_is_local', key=key)
+    for down in (True, False):
+      rec.close(res[(down, 'dot')], res[(down, 'jax')], scale=3.0, C=1e4 * np.sqrt(K), site='cumsum_methods_agree', key=key)
+    T = np.cos(np.arange(K))[:, None, None] * np.ones((K, 1, 2))
+    gd = np.asarray(pe.get_geopotential_diff(jnp.asarray(T), c, 287.0, 'dense'))
+    gs = np.asarray(pe.get_geopotential_diff(jnp.asarray(T), c, 287.0, 'sparse'))
+    rec.close(gs, gd, scale=287.0 * (1 + abs(np.log(r.c)).max()), C=1e4 * np.sqrt(K), site='geopotential_sparse_equals_dense', key=key)
     return
 
   b = unit['b']
